@@ -115,6 +115,53 @@ func main() {
 			})
 			e.Strs("filterAssigns", fields, "collector fields assigned by metaDataCollector.Filter, first-assignment order")
 			e.Strs("filterSlices", slices, "slice expressions inside metaDataCollector.Filter")
+			// ---- Init: the collector is reused across bulks; per ReallocSolver both branches, statement by statement
+			if fi := f.Func("metaDataCollector", "Init"); fi == nil {
+				e.Missing("initBranches", "Init not found")
+			} else {
+				var branches, plain []string
+				for _, st := range fi.Body.List {
+					switch x := st.(type) {
+					case *ast.IfStmt:
+						if x.Init == nil || !strings.Contains(f.Render(x.Init), "ReallocParams") {
+							plain = append(plain, "if "+f.Render(x.Cond))
+							continue
+						}
+						var a, b []string
+						for _, s := range x.Body.List {
+							a = append(a, f.Render(s))
+						}
+						if el, ok := x.Else.(*ast.BlockStmt); ok {
+							for _, s := range el.List {
+								b = append(b, f.Render(s))
+							}
+						}
+						branches = append(branches, f.Render(x.Init)+" ? "+strings.Join(a, "; ")+" : "+strings.Join(b, "; "))
+					default:
+						plain = append(plain, f.Render(st))
+					}
+				}
+				e.Strs("initBranches", branches, "metaDataCollector.Init: per ReallocSolver the re-allocate branch and the reuse branch")
+				e.Strs("initPlain", plain, "metaDataCollector.Init: the statements outside the solver branches")
+			}
+			if fn := f.Func("", "newMetaDataCollector"); fn == nil {
+				e.Missing("collectorFields", "newMetaDataCollector not found")
+			}
+			// every field of the collector struct (a new field needs a reset in Init and a place in the model)
+			var flds []string
+			ast.Inspect(f.AST, func(n ast.Node) bool {
+				if ts, ok := n.(*ast.TypeSpec); ok && ts.Name.Name == "metaDataCollector" {
+					if st, ok := ts.Type.(*ast.StructType); ok {
+						for _, fl := range st.Fields.List {
+							for _, nm := range fl.Names {
+								flds = append(flds, nm.Name)
+							}
+						}
+					}
+				}
+				return true
+			})
+			e.Strs("collectorFields", flds, "fields of the metaDataCollector struct")
 		}
 
 		// ---- MergeQPRs: sort, then removeRepetitionsAdvanced, then total correction, then cut to limit
